@@ -846,6 +846,12 @@ def oracle_constructors(o, rng, n):
         Y = o.guard('ctor:Exp:SE3', lambda: SE3.Exp(np.r_[0, 0, 0, w]).A, w)
         if Y is not None:
             o.cmp('ctor:Exp:SE3', Y, _T(Rw, [0, 0, 0]), w)
+        # the documented first form of SE3.Exp: a single se(3) matrix (since /repo 39bd617)
+        Sm = np.zeros((4, 4))
+        Sm[:3, :3] = np.array([[0, -w[2], w[1]], [w[2], 0, -w[0]], [-w[1], w[0], 0]])
+        Y = o.guard('ctor:Exp:SE3:se3-matrix', lambda: SE3.Exp(Sm).A, w)
+        if Y is not None:
+            o.cmp('ctor:Exp:SE3:se3-matrix', Y, _T(Rw, [0, 0, 0]), w)
         Y = o.guard('ctor:Exp:Twist3', lambda: Twist3(np.r_[0, 0, 0, w]).exp().A, w)
         if Y is not None:
             o.cmp('ctor:Exp:Twist3', Y, _T(Rw, [0, 0, 0]), w)
@@ -917,22 +923,27 @@ def oracle_multi(o, rng, n):
             tw2 = o.elems('multi:SE2.Twist2()', lambda: se2.Twist2(), T2s, lambda x: x.SE2().A, inp2, 10.0)
             o.elems('multi:Twist2(SE2_N)', lambda: Twist2(se2), T2s, lambda x: x.SE2().A, inp2, 10.0)
             if tw2 is not None:
-                o.elems('multi:Twist2.SE2', lambda: tw2.SE2(), T2s, lambda x: x.A, inp2, 10.0)
-                o.elems('multi:Twist2.exp', lambda: tw2.exp(), T2s, lambda x: x.A, inp2, 10.0)
+                o.elems('multi:Twist2_N.SE2', lambda: tw2.SE2(), T2s, lambda x: x.A, inp2, 10.0)
+                o.elems('multi:Twist2_N.exp', lambda: tw2.exp(), T2s, lambda x: x.A, inp2, 10.0)
         if so3 is not None:
             o.elems('multi:SE3.SO3(SO3)', lambda: SE3.SO3(so3), [_T(R, [0, 0, 0]) for R in R3s], lambda x: x.A, inp3)
             uq = o.elems('multi:UQ(SO3)', lambda: UnitQuaternion(so3), R3s, lambda x: x.R, inp3)
             if uq is not None:
-                o.elems('multi:UQ.SO3', lambda: uq.SO3(), R3s, lambda x: x.A, inp3)
-                o.elems('multi:UQ.SE3', lambda: uq.SE3(), [_T(R, [0, 0, 0]) for R in R3s], lambda x: x.A, inp3)
-                o.elems('multi:UQ.R', lambda: uq.R, R3s, lambda x: x, inp3)
+                o.elems('multi:UQ_N.SO3', lambda: uq.SO3(), R3s, lambda x: x.A, inp3)
+                o.elems('multi:UQ_N.SE3', lambda: uq.SE3(), [_T(R, [0, 0, 0]) for R in R3s], lambda x: x.A, inp3)
+                o.elems('multi:UQ_N.R', lambda: uq.R, R3s, lambda x: x, inp3)
+                # N quaternions times a 3 x N array of points: column i rotated by quaternion i (since /repo e6aec7a)
+                P = rng.normal(size=(3, N))
+                Y = o.guard('multi:UQ_N*points', lambda: uq * P, inp3)
+                if Y is not None:
+                    o.cmp('multi:UQ_N*points', Y, np.column_stack([R @ P[:, i] for i, R in enumerate(R3s)]), inp3, 10.0)
                 o.elems('multi:UQ*UQ.inv*UQ', lambda: uq * uq.inv() * uq, R3s, lambda x: x.R, inp3)
         if se3 is not None:
             tw = o.elems('multi:SE3.Twist3()', lambda: se3.Twist3(), T3s, lambda x: x.SE3().A, inp3, 10.0)
             o.elems('multi:Twist3(SE3_N)', lambda: Twist3(se3), T3s, lambda x: x.SE3().A, inp3, 10.0)
             if tw is not None:
-                o.elems('multi:Twist3.SE3', lambda: tw.SE3(), T3s, lambda x: x.A, inp3, 10.0)
-                o.elems('multi:Twist3.exp', lambda: tw.exp(), T3s, lambda x: x.A, inp3, 10.0)
+                o.elems('multi:Twist3_N.SE3', lambda: tw.SE3(), T3s, lambda x: x.A, inp3, 10.0)
+                o.elems('multi:Twist3_N.exp', lambda: tw.exp(), T3s, lambda x: x.A, inp3, 10.0)
                 o.elems('multi:Twist3*Twist3', lambda: tw * tw, [T @ T for T in T3s], lambda x: x.SE3().A, inp3, 100.0)
 
 
